@@ -283,6 +283,15 @@ const char *type_to_string(Type type) {
 /* Forward declarations */
 static Type check_statement(TypeChecker *tc, ASTNode *node);
 
+/* The symbol table keeps every local for the later compilation stages, so a scope is not
+ * ended by truncating it: the symbols declared since 'from' are marked instead, and name
+ * lookups skip marked symbols while the program is being type checked. */
+static void close_scope(Environment *env, int from) {
+    for (int i = from; i < env->symbol_count; i++) {
+        env->symbols[i].scope_closed = true;
+    }
+}
+
 /* Recursion depth tracking to prevent stack overflow */
 static int g_check_expr_depth = 0;
 static int g_check_stmt_depth = 0;
@@ -2839,7 +2848,7 @@ static Type check_expression_impl(ASTNode *expr, Environment *env) {
             Type return_type = TYPE_UNKNOWN;
             for (int i = 0; i < expr->as.match_expr.arm_count; i++) {
                 /* Save symbol count for scope */
-                int saved_symbol_count __attribute__((unused)) = env->symbol_count;
+                int saved_symbol_count = env->symbol_count;
                 
                 /* Add pattern binding to environment - bind as STRUCT type with "UnionName.VariantName"
                  * This allows us to distinguish union variant fields from regular struct fields
@@ -2873,6 +2882,7 @@ static Type check_expression_impl(ASTNode *expr, Environment *env) {
                  * to remain in the environment for the lifetime of the compilation unit.
                  * This is safe because each arm's binding uses a unique name from the source code.
                  */
+                close_scope(env, saved_symbol_count);
                 
                 /* First arm determines return type */
                 if (i == 0) {
@@ -3529,6 +3539,7 @@ static Type check_statement_impl(TypeChecker *tc, ASTNode *stmt) {
 
         case AST_FOR: {
             /* For loop variable has type int */
+            int for_scope_start = tc->env->symbol_count;
             Value val = create_void();
             env_define_var(tc->env, stmt->as.for_stmt.var_name, TYPE_INT, false, val);
 
@@ -3563,6 +3574,7 @@ g_checking_for_range = (stmt->as.for_stmt.range_expr &&
              * needed to look up loop variables. Loop variables are scoped by C's block
              * scope rules, so keeping them in the environment doesn't cause collisions.
              */
+            close_scope(tc->env, for_scope_start);
 
             return TYPE_VOID;
         }
@@ -3617,9 +3629,11 @@ g_checking_for_range = (stmt->as.for_stmt.range_expr &&
 
         case AST_BLOCK: {
             Type last_type = TYPE_VOID;
+            int block_scope_start = tc->env->symbol_count;
             for (int i = 0; i < stmt->as.block.count; i++) {
                 last_type = check_statement(tc, stmt->as.block.statements[i]);
             }
+            close_scope(tc->env, block_scope_start);
             return last_type;
         }
 
@@ -3643,9 +3657,11 @@ g_checking_for_range = (stmt->as.for_stmt.range_expr &&
             tc->in_unsafe_block = true;
             
             /* Type check all statements in the unsafe block */
+            int unsafe_scope_start = tc->env->symbol_count;
             for (int i = 0; i < stmt->as.unsafe_block.count; i++) {
                 check_statement(tc, stmt->as.unsafe_block.statements[i]);
             }
+            close_scope(tc->env, unsafe_scope_start);
             
             /* Restore previous unsafe state */
             tc->in_unsafe_block = prev_unsafe;
@@ -3783,6 +3799,7 @@ g_checking_for_range = (stmt->as.for_stmt.range_expr &&
                     }
                 }
 
+                int arm_scope_start = tc->env->symbol_count;
                 Value binding_val = create_void();
                 env_define_var_with_type_info(tc->env,
                     stmt->as.match_expr.pattern_bindings[i],
@@ -3812,6 +3829,7 @@ g_checking_for_range = (stmt->as.for_stmt.range_expr &&
                  * to remain in the environment for the lifetime of the compilation unit.
                  * This is safe because each arm's binding uses a unique name from the source code.
                  */
+                close_scope(tc->env, arm_scope_start);
             }
 
             return TYPE_VOID;
@@ -3895,6 +3913,7 @@ g_checking_for_range = (stmt->as.for_stmt.range_expr &&
 
                 /* Type-check the function body */
                 if (stmt->as.function.body) {
+                    int nested_scope_start = tc->env->symbol_count;
                     for (int p = 0; p < stmt->as.function.param_count; p++) {
                         Value dummy_val = {0};
                         env_define_var(tc->env, stmt->as.function.params[p].name,
@@ -3906,6 +3925,7 @@ g_checking_for_range = (stmt->as.for_stmt.range_expr &&
                     tc->current_function_return_type = stmt->as.function.return_type;
                     tc->current_function_return_struct_name = stmt->as.function.return_struct_type_name;
                     check_statement(tc, stmt->as.function.body);
+                    close_scope(tc->env, nested_scope_start);
                     tc->current_function_return_type = saved_ret;
                     tc->current_function_return_struct_name = saved_ret_struct;
                 }
@@ -5047,7 +5067,18 @@ static bool functions_match(Function *f1, Function *f2) {
     return true;
 }
 
+static bool type_check_impl(ASTNode *program, Environment *env);
+
 bool type_check(ASTNode *program, Environment *env) {
+    /* Ended scopes are hidden only while checking; afterwards every symbol is visible again */
+    bool saved_hide = env->hide_closed_scopes;
+    env->hide_closed_scopes = true;
+    bool ok = type_check_impl(program, env);
+    env->hide_closed_scopes = saved_hide;
+    return ok;
+}
+
+static bool type_check_impl(ASTNode *program, Environment *env) {
     int diagnostics_at_start = g_typecheck_error_diagnostics;
     if (!program || program->type != AST_PROGRAM) {
         fprintf(stderr, "Error: Invalid program AST\n");
@@ -5819,6 +5850,7 @@ sdef.is_pub = item->as.struct_def.is_pub;            /* Propagate public visibil
              * the struct_type_name metadata. Now we keep all symbols so transpiler
              * can access type information. C's function-local scope prevents collisions.
              */
+            close_scope(env, saved_symbol_count);
 
             /* Verify function has shadow test (skip for extern functions, main, and functions that use extern functions) */
             Function *func = env_get_function(env, item->as.function.name);
@@ -5871,7 +5903,17 @@ sdef.is_pub = item->as.struct_def.is_pub;            /* Propagate public visibil
 }
 
 /* Type check a module (without requiring main function) */
+static bool type_check_module_impl(ASTNode *program, Environment *env);
+
 bool type_check_module(ASTNode *program, Environment *env) {
+    bool saved_hide = env->hide_closed_scopes;
+    env->hide_closed_scopes = true;
+    bool ok = type_check_module_impl(program, env);
+    env->hide_closed_scopes = saved_hide;
+    return ok;
+}
+
+static bool type_check_module_impl(ASTNode *program, Environment *env) {
     if (!program || program->type != AST_PROGRAM) {
         fprintf(stderr, "Error: Invalid program AST\n");
         return false;
@@ -6505,6 +6547,7 @@ sdef.is_pub = item->as.struct_def.is_pub;            /* Propagate public visibil
              * the struct_type_name metadata. Now we keep all symbols so transpiler
              * can access type information. C's function-local scope prevents collisions.
              */
+            close_scope(env, saved_symbol_count);
 
             /* Verify function has shadow test (skip for extern functions, main, and functions that use extern functions) */
             Function *func = env_get_function(env, item->as.function.name);
